@@ -849,15 +849,16 @@ struct Bk {
     mode: &'static str,
     handled: u32,
     fail_at: u32,
+    spins: u32,
     quiet: Arc<tokio::sync::Notify>,
 }
 impl Actor for Bk {
     type Args = (Arc<Mutex<Vec<String>>>, &'static str, u32);
     type Error = String;
     async fn on_start(a: Self::Args, _: &ActorRef<Self>) -> Result<Self, String> {
-        Ok(Bk { log: a.0, mode: a.1, handled: 0, fail_at: a.2, quiet: Arc::new(tokio::sync::Notify::new()) })
+        Ok(Bk { log: a.0, mode: a.1, handled: 0, fail_at: a.2, spins: 0, quiet: Arc::new(tokio::sync::Notify::new()) })
     }
-    async fn on_run(&mut self, _: &ActorWeak<Self>) -> Result<bool, String> {
+    async fn on_run(&mut self, w: &ActorWeak<Self>) -> Result<bool, String> {
         match self.mode {
             "default" => Ok(false),
             // waits for an event that never comes (cancel-safe; restarted whenever a message wins the select)
@@ -869,9 +870,27 @@ impl Actor for Bk {
                 tokio::task::yield_now().await;
                 Ok(true)
             }
-            // parked until `fail_at` messages have been handled, then fails at once ("failing2": on_stop fails too)
+            // a pass that has nothing to wait for returns at once, again and again; after 400 such passes it parks
+            "spinning" => {
+                self.spins += 1;
+                if self.spins == 400 {
+                    self.log.lock().unwrap().push("spun 400".into());
+                }
+                if self.spins >= 400 {
+                    self.quiet.notified().await;
+                }
+                Ok(true)
+            }
+            // parked until `fail_at` messages have been handled, then fails at once ("failing2": on_stop fails too;
+            // "failing3": the failing pass first sends two messages to its own actor - they are pending when it fails)
             _ => {
                 if self.handled >= self.fail_at {
+                    if self.mode == "failing3" {
+                        if let Some(me) = w.upgrade() {
+                            let _ = me.tell(Item(9000)).await;
+                            let _ = me.tell(Item(9001)).await;
+                        }
+                    }
                     self.log.lock().unwrap().push("run err".into());
                     return Err("scripted on_run error".into());
                 }
@@ -901,8 +920,11 @@ fn backlog(rep: &mut Report) {
     let rt = tokio::runtime::Builder::new_current_thread().enable_time().build().unwrap();
     let mut cases = 0u64;
     rt.block_on(async {
-        for mode in ["default", "parked", "ticking", "failing", "failing2"] {
+        for mode in ["default", "parked", "ticking", "failing", "failing2", "failing3", "spinning"] {
             for n in [1u32, 15, 16, 17, 31, 32, 33, 40, 63, 64, 65, 100, 200] {
+                if (mode == "spinning" || mode == "failing3") && ![1, 33, 100].contains(&n) {
+                    continue;
+                }
                 for end in ["stop", "drop"] {
                     // failing modes: "stop" = fails after the whole backlog, "drop" = would fail earlier if polled earlier
                     // (the reference is kept in both: the failing on_run ends the actor)
@@ -913,16 +935,25 @@ fn backlog(rep: &mut Report) {
                     // is after the whole backlog whatever fail_at is (on_run is not polled while mail is waiting)
                     // (only for backlogs the sending task can queue within one cooperative-scheduling budget, i.e. before the actor first runs)
                     let fail_at = if (mode.starts_with("failing") && end == "stop") || n > 100 { n } else if n > 32 { 32 } else if n > 16 { 16 } else { n };
-                    let (r, jh) = spawn_with_mailbox_capacity::<Bk>((log.clone(), mode, fail_at), n as usize + 1);
+                    let (r, jh) = spawn_with_mailbox_capacity::<Bk>((log.clone(), mode, fail_at), n as usize + 2);
                     // queued back to back: the actor's task has not run yet (current-thread runtime, no yield so far)
                     let mut sent = true;
                     for k in 0..n {
                         sent &= r.tell(Item(k)).await.is_ok();
                     }
                     let mut keep = Some(r);
+                    if mode == "spinning" {
+                        // the idle actor runs its on_run pass after pass: wait for the 400th before ending it
+                        for _ in 0..300 {
+                            if log.lock().unwrap().iter().any(|x| x == "spun 400") {
+                                break;
+                            }
+                            tokio::time::sleep(Duration::from_millis(10)).await;
+                        }
+                    }
                     let stopped = match (mode, end) {
                         // the failing on_run ends the actor by itself; the reference stays alive meanwhile
-("failing", _) | ("failing2", _) => true,
+                        ("failing", _) | ("failing2", _) | ("failing3", _) => true,
                         (_, "stop") => matches!(tokio::time::timeout(Duration::from_secs(5), keep.as_ref().unwrap().stop()).await, Ok(Ok(()))),
                         _ => {
                             keep = None;
@@ -932,9 +963,16 @@ fn backlog(rep: &mut Report) {
                     let res = tokio::time::timeout(Duration::from_secs(5), jh).await;
                     drop(keep);
                     let l = log.lock().unwrap().clone();
-                    let handled: Vec<u32> = l.iter().filter_map(|x| x.strip_prefix("h ").and_then(|v| v.parse().ok())).collect();
+                    let handled_all: Vec<u32> = l.iter().filter_map(|x| x.strip_prefix("h ").and_then(|v| v.parse().ok())).collect();
+                    let handled: Vec<u32> = handled_all.iter().copied().filter(|v| *v < 9000).collect();
                     let stops = l.iter().filter(|x| x.starts_with("stop")).count();
                     let what = format!("backlog(on_run {mode}, {n} queued tells, then {end})");
+                    if handled_all.len() != handled.len() {
+                        rep.v("C12 C08 C04", format!("{what}: the on_run pass that returned Err had just sent two messages to its own actor; the failed actor handled {} of them before ending (after Err the actor runs on_stop(killed=false) and ends as failed: what is pending then gets an error, it is not served); log tail {:?}", handled_all.len() - handled.len(), &l[l.len().saturating_sub(5)..]));
+                    }
+                    if mode == "spinning" && !l.iter().any(|x| x == "spun 400") {
+                        rep.v("C08", format!("{what}: an on_run that returns Ok(true) at once is run again whenever the actor is idle; it never returned Ok(false), yet 3 s after the last message it had not made its 400th pass; log tail {:?}", &l[l.len().saturating_sub(3)..]));
+                    }
                     if !sent || !stopped {
                         rep.v("C09 C02", format!("{what}: a tell into a mailbox with room, or stop(), failed"));
                     }
@@ -950,7 +988,7 @@ fn backlog(rep: &mut Report) {
                                 if !out.is_cleanup_failed() || out.was_killed() {
                                     rep.v("C05 C08", format!("{what}: on_run returned Err after the backlog and the cleanup on_stop returned Err too: the result must say so (failed in on_run, then in on_stop; not killed)"));
                                 }
-                            } else if mode == "failing" {
+                            } else if mode == "failing" || mode == "failing3" {
                                 if !out.is_runtime_failed() || out.was_killed() {
                                     rep.v("C08 C05", format!("{what}: on_run returned Err after the backlog: the result must be an on_run failure, not killed"));
                                 }
@@ -1192,11 +1230,13 @@ impl Message<Pm> for Hp {
         m.0
     }
     fn on_tell_result(result: &u32, _: &ActorRef<Self>) {
+        HP_TELL_RESULTS.fetch_add(1, SeqCst);
         if *result == 777 {
             panic!("scripted panic in on_tell_result");
         }
     }
 }
+static HP_TELL_RESULTS: AtomicU64 = AtomicU64::new(0);
 
 fn hookpanic(rep: &mut Report) {
     let rt = tokio::runtime::Builder::new_current_thread().enable_time().build().unwrap();
@@ -1268,6 +1308,19 @@ fn hookpanic(rep: &mut Report) {
                     rep.v("C12 C03", format!("{what}: a tell issued 25 ms after the panic returned Ok"));
                 }
                 let _ = stops_before;
+                // the hooks of other actors are untouched: a tell handled by a fresh actor is followed by exactly one on_tell_result
+                {
+                    let log3 = Arc::new(Mutex::new(vec![]));
+                    let (r3, _jh3) = rsactor::spawn::<Hp>((log3, "gate"));
+                    let before = HP_TELL_RESULTS.load(SeqCst);
+                    let told = r3.tell(Pm(5)).await;
+                    let asked = r3.ask(Pm(6)).await;
+                    let calls = HP_TELL_RESULTS.load(SeqCst) - before;
+                    if calls != 1 || told.is_err() || !matches!(asked, Ok(6)) {
+                        rep.v("C19 C12", format!("{what}: afterwards a fresh actor handled one tell (returned {told:?}) and one ask (returned {asked:?}); on_tell_result ran {calls} time(s) for it (exactly once: after the tell, never after the ask - one actor's panic does not change what another actor's hooks do)"));
+                    }
+                    let _ = r3.kill();
+                }
                 // framework-wide state is intact: a plain spawn() afterwards has the default capacity (nothing configures one here)
                 if end == "stop" {
                     let log2 = Arc::new(Mutex::new(vec![]));
@@ -1593,6 +1646,32 @@ fn queuedask(rep: &mut Report) {
                 rep.v("C01 C07 C11 C12", format!("queuedask(abandoned by {how}): the accepted request must be handled before the unreferenced actor ends gracefully; ended={}, log {l:?} (expected [h 7, stop false])", res.is_ok()));
             }
         }
+        // a handle that gave up one request and makes another gets the answer to the other: the reply path of an abandoned
+        // ask is never reused for the next one (same handle value, not a clone)
+        for second in ["same type", "other type", "ask_with_timeout"] {
+            cases += 1;
+            note(format!("queuedask: an ask given up while queued (dropped future), then a second ask ({second}) through the same handle before the first is answered"));
+            let log = Arc::new(Mutex::new(vec![]));
+            let (r, jh) = spawn_with_mailbox_capacity::<Qa>(log.clone(), 8);
+            let (gtx, grx) = tokio::sync::oneshot::channel();
+            r.tell(Gate(grx)).await.unwrap();
+            tokio::task::yield_now().await;
+            let gave_up = tokio::time::timeout(Duration::from_millis(20), r.ask(AsString(21))).await.is_err();
+            let _ = gtx.send(());
+            let got = match second {
+                "same type" => tokio::time::timeout(Duration::from_secs(5), r.ask(AsString(22))).await.map(|x| format!("{x:?}")),
+                "other type" => tokio::time::timeout(Duration::from_secs(5), r.ask(AsOption(22))).await.map(|x| format!("{x:?}")),
+                _ => tokio::time::timeout(Duration::from_secs(5), r.ask_with_timeout(AsString(22), Duration::from_secs(4))).await.map(|x| format!("{x:?}")),
+            };
+            let want = if second == "other type" { "Ok(Some(\"reply 22\"))" } else { "Ok(\"reply 22\")" };
+            let l = log.lock().unwrap().clone();
+            if !gave_up || got.as_deref() != Ok(want) {
+                let got = got.unwrap_or_else(|_| "nothing within 5 s".to_string());
+                rep.v("C03", format!("queuedask(re-ask, {second}): the first ask (request 21) was given up by its caller while queued (gave up: {gave_up}); the second ask (request 22) through the same handle returned {got} (expected its own handler's value, {want}); handled: {l:?}"));
+            }
+            let _ = r.kill();
+            let _ = tokio::time::timeout(Duration::from_secs(5), jh).await;
+        }
         rep.s("queuedask", format!("cases={cases}"));
     });
 }
@@ -1687,6 +1766,100 @@ fn cyclerace(rep: &mut Report) {
 #[cfg(not(feature = "deadlock"))]
 fn cyclerace(rep: &mut Report) {
     rep.s("cyclerace", "not applicable: this build has no deadlock detection".into());
+}
+
+// ------------------------------------------------------------------------------------------------ what happened earlier does not matter
+/// every send is judged by the state of the mailbox when it is made, not by what earlier sends met: after a timed tell
+/// that gave up on a full mailbox and a stop() that was abandoned while waiting for a slot, a plain tell into the
+/// still-full mailbox waits (and is accepted when there is room), and - once the mailbox has drained - tells with an
+/// empty or tiny budget report exactly what happened to their message
+struct Sl {
+    log: Arc<Mutex<Vec<u32>>>,
+}
+impl Actor for Sl {
+    type Args = Arc<Mutex<Vec<u32>>>;
+    type Error = String;
+    async fn on_start(a: Self::Args, _: &ActorRef<Self>) -> Result<Self, String> {
+        Ok(Sl { log: a })
+    }
+}
+struct SlHold(tokio::sync::oneshot::Receiver<()>);
+struct SlN(u32);
+impl Message<SlHold> for Sl {
+    type Reply = ();
+    async fn handle(&mut self, m: SlHold, _: &ActorRef<Self>) {
+        let _ = m.0.await;
+    }
+}
+impl Message<SlN> for Sl {
+    type Reply = u32;
+    async fn handle(&mut self, m: SlN, _: &ActorRef<Self>) -> u32 {
+        self.log.lock().unwrap().push(m.0);
+        m.0
+    }
+}
+fn stale(rep: &mut Report) {
+    let rt = tokio::runtime::Builder::new_current_thread().enable_time().build().unwrap();
+    let mut rounds = 0u64;
+    rt.block_on(async {
+        for round in 0..4u32 {
+            rounds += 1;
+            note(format!("stale: round {round}"));
+            let log = Arc::new(Mutex::new(vec![]));
+            let (r, jh) = spawn_with_mailbox_capacity::<Sl>(log.clone(), 1);
+            let (gtx, grx) = tokio::sync::oneshot::channel();
+            r.tell(SlHold(grx)).await.unwrap();
+            tokio::task::yield_now().await; // the actor is parked inside the handler, its mailbox empty
+            r.tell(SlN(1)).await.unwrap(); // fills the only slot
+            // (i) a timed tell gives up on the full mailbox; (ii) a stop() is abandoned while it waits for a slot
+            let t = r.tell_with_timeout(SlN(2), Duration::from_millis(20)).await;
+            let s_abandoned = tokio::time::timeout(Duration::from_millis(20), r.stop()).await.is_err();
+            // (iii) the mailbox is still full: a plain tell waits for room
+            let r2 = r.clone();
+            let h = tokio::spawn(async move { r2.tell(SlN(3)).await });
+            tokio::time::sleep(Duration::from_millis(20)).await;
+            let waited = !h.is_finished();
+            let _ = gtx.send(());
+            let res3 = tokio::time::timeout(Duration::from_secs(3), h).await;
+            let drained = tokio::time::timeout(Duration::from_secs(3), r.ask(SlN(4))).await;
+            // (iv) the mailbox is empty: budgets of nothing and of next to nothing
+            let z = {
+                let c = r.clone();
+                c.tell_with_timeout(SlN(5), Duration::ZERO).await
+            };
+            let z2 = r.tell_with_timeout(SlN(6), Duration::from_micros(300)).await;
+            let barrier = tokio::time::timeout(Duration::from_secs(3), r.ask(SlN(7))).await;
+            let l = log.lock().unwrap().clone();
+            let what = format!("stale (round {round}, capacity 1)");
+            if !matches!(t, Err(rsactor::Error::Timeout { .. })) || l.contains(&2) {
+                rep.v("C10 C01 C09", format!("{what}: tell_with_timeout(20 ms) into a mailbox that stayed full returned {t:?} (Err(Timeout), the message never handled); handled {l:?}"));
+            }
+            if !s_abandoned {
+                rep.v("C09 C02", format!("{what}: stop() on a full mailbox returned within 20 ms although no slot was free (it waits for a slot like any send)"));
+            }
+            if !waited || !matches!(res3, Ok(Ok(Ok(())))) || !l.contains(&3) {
+                rep.v("C09 C07", format!("{what}: after a timed tell had given up and a stop() had been abandoned while waiting for a slot (no stop marker was ever queued), a plain tell into the still-full mailbox of the running actor: still waiting after 20 ms = {waited}, result {res3:?} (it waits, and is accepted once there is room), handled {l:?}"));
+            }
+            if !matches!(drained, Ok(Ok(4))) || !matches!(barrier, Ok(Ok(7))) {
+                rep.v("C07 C03", format!("{what}: the actor - never stopped, never killed - no longer answers: asks returned {drained:?} and {barrier:?}"));
+            }
+            for (name, res, id) in [("tell_with_timeout(0 ns) through a short-lived clone", &z, 5u32), ("tell_with_timeout(300 us)", &z2, 6u32)] {
+                let handled = l.contains(&id);
+                if res.is_ok() != handled {
+                    rep.v("C01 C10 C13", format!("{what}: with the mailbox empty again, {name} returned {res:?} and its message was handled: {handled} (an error means the message never entered the mailbox; Ok means it is handled)"));
+                }
+            }
+            let ended = tokio::time::timeout(Duration::from_secs(3), async {
+                let _ = r.stop().await;
+                jh.await
+            })
+            .await;
+            if !matches!(&ended, Ok(Ok(out)) if out.is_completed() && !out.was_killed()) {
+                rep.v("C07 C05", format!("{what}: stop() at the end must end the actor as completed, not killed"));
+            }
+        }
+        rep.s("stale", format!("rounds={rounds}"));
+    });
 }
 
 // ------------------------------------------------------------------------------------------------ a cycle closed while a subscriber is slow
@@ -2587,6 +2760,29 @@ fn blocking(rep: &mut Report) {
         }
         let _ = live.kill();
     }
+    // (b15) every timed blocking_tell is judged on its own: one that timed out on a full mailbox says nothing about the next
+    {
+        note("blocking (b15): a timed blocking_tell times out on a full mailbox; the next one, with a long budget, waits for the slot".into());
+        let log = Arc::new(Mutex::new(vec![]));
+        let (slow, _j) = rt.block_on(async { spawn_with_mailbox_capacity::<B>((log.clone(), 300), 1) });
+        slow.blocking_tell(W(71), None).unwrap(); // in the handler for 300 ms
+        std::thread::sleep(Duration::from_millis(20));
+        slow.blocking_tell(W(72), None).unwrap(); // fills the only slot
+        let first = slow.blocking_tell(W(73), Some(Duration::from_millis(50))); // the slot frees only after 300 ms
+        let t0 = Instant::now();
+        let second = slow.blocking_tell(W(74), Some(Duration::from_secs(5))); // the mailbox is still full; it has room in time
+        let el = t0.elapsed();
+        let t1 = Instant::now();
+        while t1.elapsed() < Duration::from_secs(4) && !log.lock().unwrap().contains(&74) {
+            std::thread::sleep(Duration::from_millis(20));
+        }
+        let l = log.lock().unwrap().clone();
+        calls += 4;
+        if !matches!(first, Err(rsactor::Error::Timeout { .. })) || l.contains(&73) || !matches!(second, Ok(())) || !l.contains(&74) {
+            rep.v("C17 C09 C10", format!("capacity 1, a 300 ms handler running and one message queued: blocking_tell(.., Some(50 ms)) returned {first:?} (a Timeout, its message never handled); the next blocking_tell(.., Some(5 s)) - the mailbox still full, a slot free well within its budget - returned {second:?} after {el:?} (Ok, after waiting for the slot); handled: {l:?}"));
+        }
+        let _ = slow.kill();
+    }
     // (b8) what a blocking_tell with a timeout returns agrees with what happened to the message, also when the
     //      actor ends right after handling it
     {
@@ -3273,6 +3469,7 @@ fn main() {
             "queuedask" => ("C03 C06 C11 C01 C07 C13", 240),
             "cyclerace" => ("C14", 600),
             "slowlog" => ("C14 C15", 900),
+            "stale" => ("C01 C09 C10 C07", 240),
             "erasedblk" => ("C16 C17", 600),
             "blocking" => ("C17 C10 C03", 720),
             "ids" => ("C11", 120),
@@ -3306,6 +3503,7 @@ fn main() {
                     "queuedask" => queuedask(&mut r),
                     "cyclerace" => cyclerace(&mut r),
                     "slowlog" => slowlog(secs, &mut r),
+                    "stale" => stale(&mut r),
                     "erasedblk" => erasedblk(&mut r),
                     "blocking" => blocking(&mut r),
                     "ids" => ids(&mut r),
